@@ -63,6 +63,19 @@ def _variants(kvs, degrees, tier, units):
     return out
 
 
+def _tall_pairs(tall, q):
+    """a high-degree / long direction paired with a small one, both orders"""
+    small = [(1, A.clamped_kv(1, [(0.5, 1)])), (2, A.clamped_kv(2, []))]
+    big = [t for t in tall if (t[0] >= 4 and len(t[1]) <= 2 * (t[0] + 1) + 2) or (t[0] in (1, 3) and len(t[1]) - t[0] - 1 in (7, 9))]
+    if q:
+        big = big[::2]
+    out = []
+    for i, b in enumerate(big):
+        s_ = small[i % 2]
+        out.append((b, s_) if i % 2 == 0 else (s_, b))
+    return out
+
+
 def gen_cases(tier, seed):
     q = tier == 'quick'
     cases = []
@@ -84,6 +97,16 @@ def gen_cases(tier, seed):
                     for rat in (False, True):
                         cases.append(dict(shape=A.shape_desc([A.affine_kv(kv, a, s)], [p], rat, 3, 'coded', 'coded',
                                                              normalize_kv=norm), affine=[a, s]))
+    # ---- the tall thin slice: degrees up to 6 and up to 12 (thorough 20) control points over few knot vectors, so that
+    # code which only differs for high degree, high derivative order or long knot vectors is entered in every run
+    tall = A.tall_kvs(1 if q else 2)
+    for p, kv in tall:
+        for rat in (False, True):
+            cases.append(dict(shape=A.shape_desc([kv], [p], rat, 3, 'coded', 'coded'), sparse=True, tall=True))
+    for (pu, ku), (pv, kv) in _tall_pairs(tall, q):
+        for rat in (False, True):
+            cases.append(dict(shape=A.shape_desc([ku, kv], [pu, pv], rat, 3, 'coded', 'coded'), sparse=True, tall=True,
+                              parts=['derivs']))
     # ---- surfaces
     degs = [1, 2, 3]
     for pu, pv in itertools.product(degs, degs):
@@ -226,7 +249,7 @@ def _setup(case, ctx):
     if not psets:
         psets = []
         for kv, p in zip(kvs_f, degs):
-            if pd == 1:
+            if pd == 1 and not case.get('sparse'):
                 psets.append(A.params_for(p, kv, per_span=(2 * p + 1) if desc['rational'] else (p + 1)))
             elif ctx.tier == 'quick' or case.get('sparse'):
                 psets.append(A.few_params(p, kv))
